@@ -74,9 +74,6 @@ func (q *Quiet) Busy(self int64) (busy, relevant, tagged int) {
 				break
 			}
 		}
-		if !rel {
-			continue
-		}
 		hdrEnd := strings.IndexByte(blk, '\n')
 		if hdrEnd < 0 {
 			hdrEnd = len(blk)
@@ -88,6 +85,15 @@ func (q *Quiet) Busy(self int64) (busy, relevant, tagged int) {
 		}
 		id, _ := strconv.ParseInt(hdr[10:10+sp], 10, 64)
 		if id == self {
+			continue
+		}
+		if !rel {
+			// A goroutine of some library (the interrupter goroutine of net.Dial, a fake
+			// server's connection handler ...) that is ready to run may be about to wake a
+			// relevant one that waits for it on a channel: not quiescent yet.
+			if strings.Contains(hdr, "[runnable") || strings.Contains(hdr, "[running") {
+				busy++
+			}
 			continue
 		}
 		relevant++
